@@ -1,0 +1,31 @@
+//go:build verif
+
+package primev
+
+import (
+	"github.com/ethereum/go-ethereum/common"
+	"github.com/jackc/pgx/v4/pgxpool"
+
+	"github.com/shutter-network/rolling-shutter/rolling-shutter/keyper/epochkghandler"
+	"github.com/shutter-network/rolling-shutter/rolling-shutter/medley/broker"
+	"github.com/shutter-network/rolling-shutter/rolling-shutter/p2p"
+)
+
+// VerifGossipHandler builds the commitment handler (all fields unexported) the way Start does;
+// the caller supplies the decryption trigger channel (and a receiver for it, or a buffer).
+func VerifGossipHandler(
+	config *Config,
+	decryptionTriggerChannel chan *broker.Event[*epochkghandler.DecryptionTrigger],
+	dbpool *pgxpool.Pool,
+) p2p.MessageHandler {
+	return &PrimevCommitmentHandler{
+		config:                   config,
+		decryptionTriggerChannel: decryptionTriggerChannel,
+		dbpool:                   dbpool,
+	}
+}
+
+// VerifGetBidderNodeAddress exposes getBidderNodeAddress.
+func VerifGetBidderNodeAddress(digest, signature string) (*common.Address, error) {
+	return getBidderNodeAddress(digest, signature)
+}
